@@ -32,6 +32,19 @@ extern void mpt_gnode_swap(MPT_STRUCT(node) *pri, MPT_STRUCT(node) *sec)
 	}
 }
 
+/* neighbours of a re-placed node name it */
+static void gnode_fix_neighbours(MPT_STRUCT(node) *node)
+{
+	if (node->prev) {
+		node->prev->next = node;
+	}
+	else if (node->parent) {
+		node->parent->children = node;
+	}
+	if (node->next) {
+		node->next->prev = node;
+	}
+}
 /*!
  * \ingroup mptNode
  * \brief switch nodes
@@ -41,34 +54,27 @@ extern void mpt_gnode_swap(MPT_STRUCT(node) *pri, MPT_STRUCT(node) *sec)
  */
 extern void mpt_gnode_switch(MPT_STRUCT(node) *pri, MPT_STRUCT(node) *sec)
 {
-	MPT_STRUCT(node) *parent, *next, *prev, *tmp;
+	MPT_STRUCT(node) *pparent, *pnext, *pprev, *sparent, *snext, *sprev;
 	
+	if (pri == sec) {
+		return;
+	}
 	/* save node pointers */
-	parent	= pri->parent;
-	next	= pri->next;
-	prev	= pri->prev;
+	pparent = pri->parent;
+	pnext   = pri->next;
+	pprev   = pri->prev;
+	sparent = sec->parent;
+	snext   = sec->next;
+	sprev   = sec->prev;
 	
-	/* reassign primary */
-	if ((pri->next = tmp = sec->next)) {
-		tmp->prev = pri;
-	}
-	else if ((pri->parent = tmp = sec->parent)
-	         && tmp->children == sec) {
-		tmp->children = pri;
-	}
-	if ((pri->prev = tmp = sec->prev)) {
-		tmp->next = pri;
-	}
-	/* reassign secondary */
-	if ((sec->next = next)) {
-		next->prev = sec;
-	}
-	else if ((sec->parent = parent)
-	         && parent->children == pri) {
-		parent->children = sec;
-	}
-	if ((sec->prev = prev)) {
-		prev->next = sec;
-	}
+	/* exchange positions, neighbouring nodes keep each other as neighbour */
+	pri->prev   = (sprev == pri) ? sec : sprev;
+	pri->next   = (snext == pri) ? sec : snext;
+	pri->parent = sparent;
+	sec->prev   = (pprev == sec) ? pri : pprev;
+	sec->next   = (pnext == sec) ? pri : pnext;
+	sec->parent = pparent;
+	
+	gnode_fix_neighbours(pri);
+	gnode_fix_neighbours(sec);
 }
-
